@@ -38,7 +38,7 @@ def unit_greens_function(timeout_ms=20000):
         Hm, E, v = T("hamiltonian"), T("energy"), T("vector")
         atol = z3.Real("atol")
         maxm = z3.Int("max_moments")
-        eng.assume(z3.And(atol >= 0, maxm >= 10))
+        eng.assume(z3.And(atol >= 0, maxm >= 1))
         warned = []
         norms = []
         state = {"iterations": 0, "exit": None}
@@ -68,12 +68,13 @@ def unit_greens_function(timeout_ms=20000):
             if not e.truth(e.eval(s.test, env)):
                 raise Unsupported("loop not entered")
             # (2) arbitrary iteration from a havocked state
+            nm0 = zi(env.lookup("num_moments"))          # the value the code starts with
             nm = e.fresh("num_moments")
-            e.assume(nm >= 10)
+            e.assume(nm >= nm0)
             prev_res = e.fresh("residue_before", "real")
             e.assume(prev_res > atol)
             first = e.fresh("first_iteration", "bool")
-            e.assume(z3.Implies(first, nm == 10))
+            e.assume(z3.Implies(first, nm == nm0))
             env.set("num_moments", SI(nm))
             env.set("residue", SI(prev_res))
             env.set("sol", T("sol_previous"))
@@ -99,6 +100,7 @@ def unit_greens_function(timeout_ms=20000):
             "kpm_vectors": Builtin("kpm_vectors", lambda e, h, vec: T("kpm_vectors", h, vec)),
             "zip": Builtin("zip", lambda e, a, b: ZipFam(a, b)), "sum": Builtin("sum", lambda e, fam: T("sum", fam)),
             "warn": Builtin("warn", lambda e, *a, **k: warned.append(a)), "RuntimeWarning": TypeObj("RuntimeWarning"),
+            "min": Builtin("min", lambda e, a, b: SI(z3.If(zi(a) <= zi(b), zi(a), zi(b)))),
         })
         try:
             res = eng.call(Closure(fn, Env(None, {}), "greens_function"), [Hm, E, v, SI(atol), SI(maxm)], {})
@@ -115,7 +117,7 @@ def unit_greens_function(timeout_ms=20000):
             eng.oblige("gives-up-only-after-a-RuntimeWarning", z3.BoolVal(len(warned) == 1 and any(getattr(x, "name", None) == "RuntimeWarning" for x in warned[0])),
                        detail="the moment budget is exhausted: the caller is warned that the result did not converge")
             eng.oblige("gives-up-only-when-the-moment-budget-is-exceeded", z3.Not(state["first"]),
-                       detail="with max_moments >= 10 the first iteration never gives up, so a solution exists when the loop is left")
+                       detail="the first iteration never gives up (it starts with at most max_moments moments), so a solution exists when the loop is left")
             eng.oblige("returns-the-last-computed-solution", z3.BoolVal(isinstance(res, T) and res.head == "sol_previous"))
             return
         eng.oblige("no-warning-on-convergence", z3.BoolVal(not warned))
@@ -130,7 +132,7 @@ def unit_greens_function(timeout_ms=20000):
 
 
 # ------------------------------------------------------------------------------------------------
-def unit_solve_sylvester_KPM(nsub, with_aux, timeout_ms=20000):
+def unit_solve_sylvester_KPM(nsub, with_aux, timeout_ms=20000, defaults=False):
     """block_diagonalization.solve_sylvester_KPM: how the KPM solver is assembled.
       * the complement projector used in front of the KPM Green's function removes ALL explicitly known vectors: the explicit subspaces
         and the auxiliary vectors (whose contribution is added back exactly by the explicit energy-denominator term);
@@ -145,6 +147,8 @@ def unit_solve_sylvester_KPM(nsub, with_aux, timeout_ms=20000):
         vecs = [T(f"V{k}") for k in range(nsub)]
         aux = T("aux_vectors")
         opts = {"atol": T("opt_atol"), "max_moments": T("opt_max_moments"), "eps": T("opt_eps")}
+        if defaults:
+            opts = {}            # every option left to its default (solver_options given as an empty dict or as None)
         if with_aux:
             opts["auxiliary_vectors"] = aux
         made = {}
@@ -201,7 +205,7 @@ def unit_solve_sylvester_KPM(nsub, with_aux, timeout_ms=20000):
         T_getitem = getattr(T, "m_getitem", None)
         T.m_getitem = lambda self, e, key: T("item", self, key)
         try:
-            solver = eng.call(Closure(fn, Env(None, {}), "solve_sylvester_KPM"), [h0, STup(list(vecs))], {"solver_options": opts})
+            solver = eng.call(Closure(fn, Env(None, {}), "solve_sylvester_KPM"), [h0, STup(list(vecs))], {"solver_options": (opts if (opts or not defaults) else None)})
             all_vecs = vecs + [aux if with_aux else zero_aux]
             # --- set-up
             pa = made.get("projector_arg")
@@ -219,9 +223,13 @@ def unit_solve_sylvester_KPM(nsub, with_aux, timeout_ms=20000):
                 want = [T("diagonal-of", T("MatMult", T("MatMult", T("Dagger", V), h0), V)) for V in all_vecs]
                 eng.oblige("energies-are-diag(V^dagger-h_0-V)-for-every-set-of-known-vectors", z3.BoolVal(len(es) == len(want) and all(term_eq_py(a, b) for a, b in zip(es, want))), detail=repr(es)[:300])
                 eng.oblige("auxiliary-vectors-are-the-implicit-basis-of-the-explicit-part", z3.BoolVal(vimp is all_vecs[-1]))
-                eng.oblige("explicit-part-uses-the-requested-atol", z3.BoolVal(atol_x is opts["atol"]))
+                if "atol" in opts:
+                    eng.oblige("explicit-part-uses-the-requested-atol", z3.BoolVal(atol_x is opts["atol"]))
+                else:
+                    eng.oblige("explicit-part-gets-a-numeric-default-tolerance", z3.BoolVal(isinstance(atol_x, (int, float)) and not isinstance(atol_x, bool) and 0 <= atol_x <= 1e-6),
+                               detail=f"atol passed to solve_sylvester_diagonal: {atol_x!r} (None makes every explicit-explicit solve fail with a TypeError)")
             rs = made.get("rescale")
-            okr = rs is not None and rs[0] is h0 and rs[1] is opts["eps"] and rs[3] is None
+            okr = rs is not None and rs[0] is h0 and (rs[1] is opts["eps"] if "eps" in opts else isinstance(rs[1], float) and 0 < rs[1] < 1) and rs[3] is None
             eng.oblige("hamiltonian-rescaled-with-requested-eps", z3.BoolVal(okr))
             if okr:
                 lb = eng.as_seq(rs[2]).items
@@ -256,14 +264,17 @@ def unit_solve_sylvester_KPM(nsub, with_aux, timeout_ms=20000):
                     and vector.args[0].args[0].args[0] is Y and isinstance(vector.args[0].args[0].args[1], T) and vector.args[0].args[0].args[1].head == "ComplementProjector" \
                     and is_all(vector.args[0].args[0].args[1].args[0])
                 eng.oblige("kpm:rows-of-(Y-P)/a-with-the-projector-over-all-known-vectors", z3.BoolVal(okv), detail=repr(vector)[:300])
-                eng.oblige("kpm:requested-accuracy-and-moment-budget-forwarded", z3.BoolVal(at is opts["atol"] and mm is opts["max_moments"]))
+                if "atol" in opts:
+                    eng.oblige("kpm:requested-accuracy-and-moment-budget-forwarded", z3.BoolVal(at is opts["atol"] and mm is opts["max_moments"]))
+                else:
+                    eng.oblige("kpm:default-accuracy-and-moment-budget-are-numbers", z3.BoolVal(isinstance(at, float) and 0 < at < 1 and isinstance(mm, (int, float)) and mm >= 10), detail=f"{at!r} {mm!r}")
         finally:
             T.m_getattr = T_getattr
             if T_getitem is None:
                 del T.m_getitem
             else:
                 T.m_getitem = T_getitem
-    return run_unit(f"block_diagonalization:solve_sylvester_KPM[{nsub} explicit subspaces{',auxiliary vectors' if with_aux else ''}]", harness,
+    return run_unit(f"block_diagonalization:solve_sylvester_KPM[{nsub} explicit subspaces{',auxiliary vectors' if with_aux else ''}{',default options' if defaults else ''}]", harness,
                     functions=[("block_diagonalization", "solve_sylvester_KPM"), ("block_diagonalization", "solve_sylvester_KPM/solve_sylvester"),
                                ("block_diagonalization", "solve_sylvester_KPM/solve_sylvester_kpm")], timeout_ms=timeout_ms)
 
